@@ -66,3 +66,28 @@ Print Assumptions C08_full_run.
 
 Example C08_witness : eh_force_code ROps 2 rho_w force_w = [0].
 Proof. apply ehrenfest_force_differs. Qed.
+
+(* the assembled Ehrenfest pass with electronic_integration = "linear-rk4" (Model/Traj.step_eh_rk4, tied to real runs by
+   Run/RTraj.chkEr): the label is constant, both Verlet halves use the population-weighted force of the rho held at the
+   start of the pass, rho takes the interpolated RK4 step and stays Hermitian with the same trace - "both electronic integrators" *)
+Theorem C08_full_step_rk4 :
+  forall n m dt maxdt start (e0 e1 : elec (T:=R)) eigs vecs (s : tstate (T:=R)),
+  let '(s', W) := step_eh_rk4 ROps n m dt maxdt start e0 e1 eigs vecs s in
+  let f0 := eh_force_code ROps n (prho s) (eforce e0) in let f1 := eh_force_code ROps n (prho s) (eforce e1) in
+  let v1 := advance_velocity ROps m (pv s) f0 f1 dt in
+  pact s' = pact s /\ ptime s' = ptime s + dt
+  /\ prho s' = rk4_step ROps n (eH e0) (eH e1) (etau e0) (etau e1) v1 (pv s) eigs vecs dt maxdt start (prho s)
+  /\ px s' = advance_position ROps m (px s) (pv s) f0 dt /\ pv s' = v1.
+Proof. exact step_eh_rk4_props. Qed.
+Print Assumptions C08_full_step_rk4.
+
+Theorem C08_full_step_rk4_density_matrix :
+  forall n m dt maxdt start (e0 e1 : elec (T:=R)) eigs vecs (s : tstate (T:=R)),
+  unitary n (mget ROps (mofreal ROps n vecs)) ->
+  mherm n (mofreal ROps n (eH e0)) -> mherm n (mofreal ROps n (eH e1)) ->
+  (forall tau w, (tau = etau e0 \/ tau = etau e1) -> aherm n (mget ROps (tvmat ROps n tau w))) ->
+  mherm n (prho s) ->
+  let s' := fst (step_eh_rk4 ROps n m dt maxdt start e0 e1 eigs vecs s) in
+  mherm n (prho s') /\ mtrace ROps n (prho s') = mtrace ROps n (prho s) /\ pact s' = pact s.
+Proof. exact step_eh_rk4_trace_herm. Qed.
+Print Assumptions C08_full_step_rk4_density_matrix.
